@@ -17,7 +17,13 @@ MODE = (A.rest or ["C03"])[0]
 MODELS = {"x86": ["zen2"], "aarch64": ["a64fx", "n1"]}
 if A.tier == "thorough":
     MODELS = {"x86": ["zen2", "ivb", "hsw", "zen1"], "aarch64": ["a64fx", "tx2", "n1"]}
-isolate_models([m for v in MODELS.values() for m in v])
+# kernels in which one instruction depends on another in TWO ways with different weights (loaded value + written-back base):
+# the shared edge must carry the larger weight.  a72 is analysed for these only (its loads carry their whole latency on the edge).
+MULTI = {"aarch64": [["ldr x3, [x1, #8]!", "add x4, x3, x1"], ["ldr d0, [x1], #8", "str d0, [x1, #16]"], ["ldr x3, [x2], #8", "add x1, x2, x3"],
+                     ["ldr x3, [x1, #8]!", "add x4, x1, x3", "add x5, x4, x3"], ["ldr q0, [x1], #16", "str q0, [x1, #-16]"]],
+         "x86": []}
+MULTI_MODELS = {"aarch64": ["a72", "a64fx", "n1", "tx2"], "x86": []}
+isolate_models(sorted({m for v in MODELS.values() for m in v} | {m for v in MULTI_MODELS.values() for m in v}))
 
 from osaca.parser import get_parser
 from osaca.semantics import MachineModel, ArchSemantics, KernelDG
@@ -50,6 +56,13 @@ ROLES = {
         ("addl $1, %ebp", "BP", "BP"), ("vmovapd %ymm0, (%rax)", "V0 A", ""), ("vmovapd (%rax,%rbx,8), %ymm1", "A B", "V1"),
         ("vmovsd %xmm3, 8(%rsp,%r9,8)", "V3 SP R9", ""), ("addq %r10, %r11", "R10 R11", "R11"), ("vsubpd %zmm17, %zmm18, %zmm19", "V17 V18", "V19"),
         ("movl %r8d, %r9d", "R8", "R9"), ("pxor %xmm4, %xmm4", "", "V4"),
+        # read-modify-write ALU forms with immediate / memory source (Intel SDM: destination = destination OP source)
+        ("xorq $1, %rax", "A", "A"), ("xorl $1, %eax", "A", "A"), ("xorq (%rcx), %rax", "C A", "A"), ("xorq %rbx, %rax", "B A", "A"),
+        ("andq $-8, %rbx", "B", "B"), ("orq $1, %rax", "A", "A"), ("subq $8, %rsi", "SI", "SI"), ("andl (%rax), %ecx", "A C", "C"),
+        ("orq (%rbx), %rdx", "B D", "D"), ("addq (%rbx), %rdx", "B D", "D"), ("subq (%rbx), %rdx", "B D", "D"),
+        ("shlq $2, %rdx", "D", "D"), ("shrq $3, %rax", "A", "A"), ("notq %rbx", "B", "B"),
+        ("adcq %rax, %rbx", "A B", "B"), ("sbbq %rax, %rbx", "A B", "B"), ("imulq $3, %rax, %rbx", "A", "B"), ("andq %rcx, %rdx", "C D", "D"),
+        ("orl %ecx, %edx", "C D", "D"), ("testq %rax, %rbx", "A B", ""), ("cmpq $1, %rax", "A", ""),
         # operand-less instructions: only hidden operands
         ("cltq", "A", "A"), ("cqto", "A", "D"), ("cltd", "A", "D"), ("cwtl", "A", "A"),
     ],
@@ -62,6 +75,10 @@ ROLES = {
         ("fadd s1, s0, s2", "v0 v2", "v1"), ("madd x0, x1, x2, x3", "g1 g2 g3", "g0"), ("fmadd d0, d1, d2, d3", "v1 v2 v3", "v0"),
         ("sub sp, sp, #16", "gsp", "gsp"), ("str x19, [sp, #8]", "g19 gsp", ""), ("ldr x20, [sp], #16", "gsp", "g20 gsp"),
         ("eor v3.16b, v3.16b, v3.16b", "v3?", "v3"), ("fmov d1, d2", "v2", "v1"), ("lsl x4, x5, #2", "g5", "g4"),
+        # further ALU forms (only forms that have an ISA database entry: for others the default rule IS the specified behaviour)
+        ("ldr x3, [x1], #8", "g1", "g3 g1"), ("and x1, x2, #255", "g2", "g1"), ("orr x1, x2, x3", "g2 g3", "g1"),
+        ("eor x1, x2, x3", "g2 g3", "g1"), ("lsr x4, x5, #2", "g5", "g4"), ("mul x0, x1, x2", "g1 g2", "g0"), ("neg x1, x2", "g2", "g1"),
+        ("sub x1, x2, x3", "g2 g3", "g1"), ("fsub d0, d1, d2", "v1 v2", "v0"), ("fdiv d0, d1, d2", "v1 v2", "v0"), ("adds x1, x2, #1", "g2", "g1"),
     ],
 }
 
@@ -167,11 +184,20 @@ def c06_kernels(isa):
         for op in ("add", "adds", "sub", "subs"):
             out.append(["str x7, [x2]", f"{op} x1, x2, x3", "ldr x8, [x1]"])
             out.append(["str x7, [x2, #8]", f"{op} x1, x2, #8", "ldr x8, [x1]", "ldr x9, [x1, #16]"])
+        # a register that was changed in an unknown way and is then freshly copied / derived from the store's base is known again
+        for d in (-8, 0, 8):
+            out.append(["str x7, [x1, #8]", "mul x4, x5, x6", "mov x4, x1", f"ldr x8, [x4, #{d + 8}]"])
+            out.append(["str x7, [x1, #8]", "ldr x4, [x9]", "add x4, x1, #8", f"ldr x8, [x4, #{d}]"])
+            out.append(["str x7, [x1, #8]", "mul x1, x5, x6", f"ldr x8, [x1, #{d + 8}]"])  # the base itself is lost: no dependency
         # write-back by a register (not a constant): the base is unknown afterwards, nothing may crash
         out += [["str q1, [x1]", "ld1 {v0.4s}, [x1], x2", "ldr q3, [x1]"], ["str q1, [x1]", "ld1 {v0.4s}, [x1], x2"]]
         out += [["str x7, [sp, #-16]!", "ldr x8, [sp], #16"], ["stp x7, x9, [sp, #-16]!", "add x2, x2, #1", "ldp x8, x10, [sp], #16"]]
         out += [["str x7, [x1, #8]", "ldr x8, [x1, #8]", "ldr x9, [x1, #8]", "ldr x10, [x1, #8]"], ["str x7, [x1], #8", "ldr x8, [x1, #-8]"], ["str x7, [x1, #8]!", "ldr x8, [x1]"], ["str x7, [x1], #8", "ldr x8, [x1]"]]
     if isa == "x86":
+        for d in (-8, 0, 8):
+            out.append(["movq %rsi, 8(%rax)", "imulq %rcx, %rdx", "movq %rax, %rdx", f"movq {d + 8}(%rdx), %rdi"])
+            out.append(["movq %rsi, 8(%rax)", "movq (%r9), %rdx", "movq %rax, %rdx", "addq $8, %rdx", f"movq {d}(%rdx), %rdi"])
+            out.append(["movq %rsi, 8(%rax)", "imulq %rcx, %rax", f"movq {d + 8}(%rax), %rdi"])
         for d in (-16, -8, 0, 8, 16, 24):
             out.append(["movq %rsi, 8(%rax)", "addq $8, %rax", "movq %rax, %rdx", "addq $8, %rdx", f"movq {d}(%rax), %rcx", f"movq {d}(%rdx), %rdi"])
             # read-modify-write stores: the memory operand is not the first destination (flags come first)
@@ -256,8 +282,10 @@ def check_case(case):
         for (i, j) in sorted(want_pairs & set(got)):
             if i >= j:
                 fails.append(("backward-edge", f"edge {ln[i]} -> {ln[j]}", desc))
-            if not any(abs(got[(i, j)] - w) < 1e-9 for w in ref[(i, j)]):
-                fails.append(("edge-weight", f"edge {kernel[i].line!r} -> {kernel[j].line!r} carries {got[(i, j)]}, expected {sorted(ref[(i, j)])}", desc))
+            # several dependencies between the same two instructions share one edge: the consumer waits for the slowest (C04: the
+            # critical path is never smaller than the accumulated latency of any dependency chain)
+            if abs(got[(i, j)] - max(ref[(i, j)])) > 1e-9:
+                fails.append(("edge-weight", f"edge {kernel[i].line!r} -> {kernel[j].line!r} carries {got[(i, j)]}, expected {max(ref[(i, j)])} (dependencies between them: {sorted(ref[(i, j)])})", desc))
         for i, k in enumerate(kernel):
             ls = O.load_stage(k)
             has = dg.dg.has_node(k.line_number + 0.1)
@@ -325,6 +353,10 @@ def main():
             if MODE == "C05":
                 for k in ks[:200]:
                     cases.append((isa, arch, k, False, 1500))
+    if MODE in ("C03", "C04"):
+        for isa, archs in MULTI_MODELS.items():
+            for arch in archs:
+                cases += [(isa, arch, k, False, 1) for k in MULTI[isa]]
     if MODE == "C14":
         cases = [c for c in cases if len(c[2]) >= 2]
         if A.tier != "thorough":
@@ -342,8 +374,8 @@ def main():
                 cases += [(isa, arch, k, False, 1) for k in memk[isa]]
     # group by arch so that each worker loads few models
     cases.sort(key=lambda c: c[1])
-    for isa, archs in MODELS.items():  # load every model once before forking (workers inherit it; avoids the
-        for arch in archs:             # concurrent cold-start cache race, which is C17's business)
+    for isa in MODELS:  # load every model once before forking (workers inherit it; avoids the
+        for arch in sorted({c[1] for c in cases if c[0] == isa}):  # concurrent cold-start cache race, which is C17's business)
             analyse(isa, arch, [VOCAB[isa][0]], False)
     with Pool(min(16, os.cpu_count() or 4)) as pool:
         results = pool.map(check_case, cases, chunksize=max(1, len(cases) // 64))
